@@ -63,6 +63,9 @@ def iteration_cases(props, tier):
 
 def cases(tier):
     cs = iteration_cases(PROPS, tier)
+    for i in range(4):
+        cs.append((table.case_thread_playing_iteration, f'seat thread: play loop iteration, position {i} (own seat, declarer, seat on turn, trick symbolic)', dict(props=PROPS, i=i)))
+    cs.append((table.case_thread_bidding_iteration, 'seat thread: auction loop iteration (own seat, seat on turn symbolic)', dict(props=PROPS)))
     for n in SESSIONS['thorough' if tier == 'thorough' else 'quick']:
         cs.append((_transcript_case, f'byte streams of session {n} against the protocol transcript', dict(name=n, props=PROPS)))
     return cs
@@ -72,7 +75,8 @@ META = dict(
     level='model_checking',
     bounds=lambda tier: {'main thread': 'Server.deal for board numbers 1..9999; one auction-loop iteration from any live auction state (history of any length), all 38 calls, case bits, alert suffixes; '
                                         'one play-loop iteration from any play state (trick 1..13, 0..3 cards on the table, any contract, any hands), any card offered, both notations, case bits',
-                         'seat threads / composition': 'complete byte streams of the recorded sessions ' + ', '.join(SESSIONS['thorough' if tier == 'thorough' else 'quick']) + ' (4 connections each)',
+                         'seat threads': 'one iteration of PlayerThread._playing_phase (own seat x declarer x seat on turn x trick 1..13 x position 0..3) and of _bidding_phase (own seat x seat on turn), client messages as the bundled client sends them',
+                         'composition': 'complete byte streams of the recorded sessions ' + ', '.join(SESSIONS['thorough' if tier == 'thorough' else 'quick']) + ' (4 connections each)',
                          'outside': 'seat-thread code paths not exercised by the recorded sessions'},
     stubs=['queues = recording lists; Server.hand_to_str = injective token of the hand it is given (its text is C19\'s subject); Server._sync_event no-op',
            'recorded sessions: in-memory sockets, time.sleep no-op'],
@@ -80,5 +84,11 @@ META = dict(
                  'streams of a session do not depend on the schedule (C09: deadlock-freedom + trace determinism, checked there)'],
     rule='feasible paths of one loop iteration taken from the source; plus message-by-message comparison of recorded streams',
     explanation='loop-cut symbolic execution of the relay code and an independent transcript oracle for recorded sessions',
-    required_outcomes=['deal messages', 'call relayed', 'card relayed', 'card relayed with dummy disclosure', 'session transcript compared'],
+    required_outcomes=['seat thread iteration', 'seat thread auction iteration', 'deal messages', 'call relayed', 'card relayed', 'card relayed with dummy disclosure', 'session transcript compared'],
 )
+
+
+def validate(tier):
+    """translator validation: the interpreter in concrete mode against CPython on the functions this check encodes"""
+    from engine import validate as v
+    return v.run(['messages', 'plays', 'auctions'], tier)
